@@ -3,6 +3,7 @@ package ssaexec
 import (
 	"fmt"
 	"go/types"
+	"os"
 	"sync"
 
 	"golang.org/x/tools/go/ssa"
@@ -52,10 +53,15 @@ type task struct {
 	cur      *frame
 	depth    int
 	waited   int // yield points spent runnable but not running
+	blockedAt string
+	returnTo  *task // event tasks: the task that was running when the event fired
+	inEvent   int   // > 0 while parked in fireEvent
 	isMain   bool
 }
 
 type taskKilled struct{}
+
+var debugDeadlock = os.Getenv("GOSYM_DEBUG_DEADLOCK") != ""
 
 type sched struct {
 	tasks       []*task
@@ -74,6 +80,8 @@ type sched struct {
 	// preemptAtLoads makes atomic loads (the VM's halt poll, i.e. every VM
 	// instruction boundary) voluntary preemption points as well
 	preemptAtLoads bool
+	race           *raceState
+	rwReaders      map[*value]int
 }
 
 func (m *Machine) sch() *sched { return m.path.sched }
@@ -168,10 +176,24 @@ func (m *Machine) taskMain(t *task) {
 			s.main.resume <- struct{}{}
 			return
 		}
-		// normal end: hand the baton on
+		// normal end: hand the baton on. An injected event returns to the task
+		// it interrupted if that task is still waiting for it.
+		if rt := t.returnTo; rt != nil && !rt.done && rt.inEvent > 0 {
+			s.cur = rt
+			m.cur, m.depth = rt.cur, rt.depth
+			rt.resume <- struct{}{}
+			return
+		}
 		next := m.pickNext(t)
 		if next == nil {
 			// nothing can run: if main is blocked forever this is a deadlock
+			if debugDeadlock {
+				for _, t := range s.tasks {
+					if !t.done {
+						fmt.Printf("DEADLOCK(task end) task %d blocked=%v at:\n%s\n", t.id, t.blocked, t.blockedAt)
+					}
+				}
+			}
 			s.abort = pathEnd{"deadlock:all-tasks-blocked"}
 			s.cur = s.main
 			m.cur, m.depth = s.main.cur, s.main.depth
@@ -206,6 +228,7 @@ func (m *Machine) pickNext(not *task) *task {
 func (m *Machine) blockCurrent() {
 	s := m.sch()
 	cur := s.cur
+	cur.blockedAt = m.stack()
 	for {
 		if m.runnable(cur) {
 			return
@@ -222,10 +245,17 @@ func (m *Machine) blockCurrent() {
 				}
 				f := s.atYield[first]
 				delete(s.atYield, first)
-				// the event runs on this goroutine while the task stays registered as
-				// blocked, so that the event itself (e.g. closing a channel) can fire it
-				m.call(m.cur, 0, f, nil)
+				// the event runs as a task of its own while this task stays registered
+				// as blocked, so that the event itself (e.g. closing a channel) can fire it
+				m.fireEvent(f)
 				continue
+			}
+			if debugDeadlock {
+				for _, t := range s.tasks {
+					if !t.done {
+						fmt.Printf("DEADLOCK task %d blocked=%v at:\n%s\n", t.id, t.blocked, t.blockedAt)
+					}
+				}
 			}
 			if cur.isMain {
 				panic(pathEnd{"deadlock:main-blocked-forever"})
@@ -260,7 +290,7 @@ func (m *Machine) yieldKind(mayPreempt bool) {
 	s.yields++
 	if f, ok := s.atYield[s.yields]; ok {
 		delete(s.atYield, s.yields)
-		m.call(m.cur, 0, f, nil)
+		m.fireEvent(f)
 	}
 	if len(s.tasks) == 1 {
 		return
@@ -295,6 +325,21 @@ func (m *Machine) yieldKind(mayPreempt bool) {
 	m.switchTo(others[k-1])
 }
 
+// fireEvent runs an injected environment event (verifrt.AtYield) as a task of
+// its own — it stands for another goroutine of the host, e.g. one calling
+// cancel() — and returns when that task has finished or, if it blocked, when
+// the scheduler resumes the interrupted task.
+func (m *Machine) fireEvent(f value) {
+	s := m.sch()
+	cur := s.cur
+	t := &task{id: len(s.tasks), fn: f, resume: make(chan struct{}), returnTo: cur}
+	s.tasks = append(s.tasks, t)
+	m.raceFork(t)
+	cur.inEvent++
+	m.switchTo(t)
+	cur.inEvent--
+}
+
 func (m *Machine) spawn(fr *frame, instr *ssa.Go, fn value, args []value) {
 	if m.path == nil || m.path.sched == nil {
 		panic(unsupported("go statement outside a path"))
@@ -302,6 +347,7 @@ func (m *Machine) spawn(fr *frame, instr *ssa.Go, fn value, args []value) {
 	s := m.sch()
 	t := &task{id: len(s.tasks), fn: fn, args: args, resume: make(chan struct{})}
 	s.tasks = append(s.tasks, t)
+	m.raceFork(t)
 	m.yield()
 }
 
@@ -414,7 +460,9 @@ func (m *Machine) selectCases(cases []selCase, blocking bool) (int, value, bool)
 		}
 		if len(ready) > 0 {
 			i := ready[m.choose(len(ready), "select")]
+			m.raceSync(cases[i].ch, true, true)
 			v, ok := m.execCase(cases[i])
+			m.raceSync(cases[i].ch, true, true)
 			m.yield()
 			return i, v, ok
 		}
@@ -422,10 +470,18 @@ func (m *Machine) selectCases(cases []selCase, blocking bool) (int, value, bool)
 			return -1, nil, false
 		}
 		cur.blocked, cur.pending, cur.fired = true, cases, nil
+		for _, c := range cases {
+			if c.ch != nil {
+				m.raceSync(c.ch, false, true)
+			}
+		}
 		m.blockCurrent()
 		cur.blocked, cur.pending = false, nil
 		if f := cur.fired; f != nil {
 			cur.fired = nil
+			if f.idx >= 0 && f.idx < len(cases) {
+				m.raceSync(cases[f.idx].ch, true, true)
+			}
 			if f.sendPanic {
 				m.rtPanicPlain("send on closed channel")
 			}
@@ -473,6 +529,7 @@ func (m *Machine) chanClose(c *Chan) {
 	}
 	c.closed = true
 	m.logUndo(func() { c.closed = false })
+	m.raceSync(c, true, true)
 	if m.path != nil && m.path.sched != nil {
 		s := m.sch()
 		for _, t := range s.tasks {
